@@ -41,6 +41,7 @@ class SurfaceSubdivision(Logger):
         self.mesh = mesh
 
     def __enter__(self):
+        self._input = self.mesh
         self.mesh = RawMeshData(self.mesh)
         self.mesh.face_corners.clear()
         return self
@@ -48,6 +49,13 @@ class SurfaceSubdivision(Logger):
     def __exit__(self, exc_type, exc_val, exc_tb):
         self.mesh.prepare()
         self.mesh = _instanciate_raw_mesh_data(self.mesh, 2)
+        # the editor works on the containers of the mesh it was given: leave that object equal
+        # to the result (same containers, no stale connectivity) instead of half-updated
+        for name in ("vertices", "edges", "faces", "face_corners"):
+            setattr(self._input, name, getattr(self.mesh, name))
+        self._input.connectivity.clear()
+        self._input.clear_boundary_data()
+        self._input._is_triangular = self._input._is_quad = None
 
     @allowed_mesh_types(SurfaceMesh)
     def triangulate_face(self, face_id: int) :
